@@ -2,3 +2,6 @@
 #![allow(unused)]
 use vstd::prelude::*;
 use vstd::std_specs::ops::*;
+use vstd::std_specs::cmp::*;
+use core::cmp::Ordering;
+use vstd::std_specs::iter::IteratorSpec;
